@@ -1,69 +1,923 @@
+// C04 — decoding untrusted bytes never crashes, hangs or over-allocates. Bounded-exhaustive enumeration of
+// byte strings (every string over the decoder's tag alphabet up to a length bound; the complete single-edit
+// neighbourhood of a corpus of valid streams; grammar-aware replacement of every count, length and index;
+// nesting bombs) x destination types x modes x entry points (reader-fed and in-memory Unmarshal, service
+// request handling, client response decoding). Oracle: no panic, no process death, no loop that outlives
+// its input (post-EOF read count, CPU budget), allocation <= 1 MiB + 256 x len(input).
 package main
 
 import (
+	"encoding/hex"
+	"encoding/json"
+	"errors"
 	"fmt"
+	"os"
+	"regexp"
+	"sort"
+	"strings"
+	"sync/atomic"
+	"syscall"
+	"time"
+
+	"github.com/hprose/hprose-golang/v3/rpc/core"
+	"verif/lib/report"
+	"verif/lib/shard"
 	"verif/mc/corpus"
 	"verif/mc/gen"
 	"verif/mc/iocase"
 )
 
-func skel(s []byte) string {
-	var out []byte
-	for i := 0; i < len(s); i++ {
-		c := s[i]
-		switch {
-		case c >= '0' && c <= '9':
-			if len(out) == 0 || out[len(out)-1] != '#' {
-				out = append(out, '#')
+const ID = "C04"
+
+const memLimitKB = 2 << 20 // workers run under ulimit -v 2 GiB
+
+// ---- jobs ----
+
+type job struct {
+	Domain string   `json:"d"`
+	Prefix string   `json:"p,omitempty"` // Sigma family: the inputs are Prefix + SigmaString(i), Lo <= i < Hi
+	Lo     int      `json:"lo,omitempty"`
+	Hi     int      `json:"hi,omitempty"`
+	Inputs [][]byte `json:"in,omitempty"` // explicit inputs
+	Bomb   string   `json:"b,omitempty"`  // generated input "kind:depth"
+	Cell   int      `json:"c"`            // -1: every cell of the domain
+	Meta   string   `json:"m,omitempty"`  // provenance of a single explicit input (kept for signatures)
+}
+
+func bombBytes(spec string) []byte {
+	var kind string
+	var k int
+	i := strings.LastIndex(spec, ":")
+	kind = spec[:i]
+	fmt.Sscan(spec[i+1:], &k)
+	var s string
+	switch kind {
+	case "list-open":
+		s = strings.Repeat("a1{", k)
+	case "list-closed":
+		s = strings.Repeat("a1{", k) + "n" + strings.Repeat("}", k)
+	case "map-open":
+		s = strings.Repeat("m1{", k)
+	case "map-closed":
+		s = strings.Repeat("m1{1", k) + "n" + strings.Repeat("}", k)
+	case "svc-list-open":
+		s = `Cs1"v"` + strings.Repeat("a1{", k)
+	case "svc-list-closed":
+		s = `Cs1"v"` + strings.Repeat("a1{", k) + "n" + strings.Repeat("}", k) + "z"
+	case "cli-list-open":
+		s = "R" + strings.Repeat("a1{", k)
+	case "cli-list-closed":
+		s = "R" + strings.Repeat("a1{", k) + "n" + strings.Repeat("}", k) + "z"
+	default:
+		panic("bomb " + spec)
+	}
+	return []byte(s)
+}
+
+func inputsOf(j job) [][]byte {
+	switch {
+	case j.Bomb != "":
+		return [][]byte{bombBytes(j.Bomb)}
+	case j.Hi > j.Lo:
+		out := make([][]byte, 0, j.Hi-j.Lo)
+		for i := j.Lo; i < j.Hi; i++ {
+			out = append(out, append([]byte(j.Prefix), corpus.SigmaString(i)...))
+		}
+		return out
+	}
+	return j.Inputs
+}
+
+// ---- worker ----
+
+type violRec struct {
+	Domain string   `json:"domain"`
+	Cell   int      `json:"cell"`
+	Name   string   `json:"cell_name"`
+	Kind   string   `json:"kind"`
+	Site   string   `json:"site,omitempty"`
+	Msg    string   `json:"msg"`
+	Input  []byte   `json:"input_base64"`
+	Quoted string   `json:"input_quoted,omitempty"`
+	Bomb   string   `json:"bomb,omitempty"`
+	Meta   string   `json:"meta,omitempty"`
+	Count  int64    `json:"count,omitempty"`
+	Cells  []string `json:"cells,omitempty"`
+}
+
+type result struct {
+	Inputs     int64            `json:"inputs"`
+	NonTrivial int64            `json:"nontrivial"`
+	Evals      int64            `json:"evals"`
+	Subsumed   int64            `json:"subsumed"` // in-memory cells not run because their reader twin spins
+	Remeasured int64            `json:"remeasured"`
+	Out        map[string]int64 `json:"out"`
+	Viol       []violRec        `json:"viol"`
+	Sample     string           `json:"sample,omitempty"`
+}
+
+var (
+	seq       atomic.Uint64
+	busy      atomic.Bool
+	curDomain string
+	curCell   int
+	curInput  []byte
+)
+
+func cpuNow() time.Duration {
+	var ru syscall.Rusage
+	syscall.Getrusage(syscall.RUSAGE_SELF, &ru)
+	return time.Duration(ru.Utime.Nano() + ru.Stime.Nano())
+}
+
+func cpuBudget(n int) time.Duration { return 3*time.Second + time.Duration(n)*10*time.Microsecond }
+
+// cpuWatchdog convicts an evaluation that has consumed more CPU time than the budget without returning
+// (CPU time of this process, so machine load cannot trip it). It names the cell on stderr and exits; the
+// coordinator reads the verdict from the failure record.
+func cpuWatchdog() {
+	var last uint64
+	var stuck time.Duration
+	lastCPU := cpuNow()
+	for {
+		time.Sleep(100 * time.Millisecond)
+		s, c := seq.Load(), cpuNow()
+		if busy.Load() && s == last {
+			stuck += c - lastCPU
+		} else {
+			stuck = 0
+		}
+		last, lastCPU = s, c
+		if stuck > cpuBudget(len(curInput)) {
+			in := "(long)"
+			if len(curInput) <= 200 {
+				in = hex.EncodeToString(curInput)
 			}
-		case c == '"':
-			out = append(out, '"')
-			i++
-			for i < len(s) && s[i] != '"' {
-				i++
-			}
-			out = append(out, '"')
-		default:
-			out = append(out, c)
+			fmt.Fprintf(os.Stderr, "\nC04-CPU-BUDGET domain=%s cell=%d input=%s cpu=%.1fs\n", curDomain, curCell, in, stuck.Seconds())
+			os.Exit(7)
 		}
 	}
-	return string(out)
 }
-func tags(s []byte) string {
-	var out []byte
-	for _, r := range corpus.NumRuns(s) {
-		out = append(out, r.Tag)
+
+func guarded(domain string, cell int, input []byte, f func()) {
+	curDomain, curCell, curInput = domain, cell, input
+	seq.Add(1)
+	f()
+}
+
+func quoted(b []byte) string {
+	if len(b) > 120 {
+		return fmt.Sprintf("%q... (%d bytes)", b[:120], len(b))
 	}
-	return string(out)
+	return fmt.Sprintf("%q", b)
+}
+
+var digitsRe = regexp.MustCompile(`[0-9]+`)
+
+// msgClass reduces a panic message to its kind: numbers and type names vary with the input, the kind does not.
+func msgClass(msg string) string {
+	msg = strings.TrimPrefix(msg, "runtime error: ")
+	for _, cut := range []string{"unhashable type", "interface conversion", "reflect.Set", "reflect: call of", "reflect:"} {
+		if i := strings.Index(msg, cut); i >= 0 {
+			msg = msg[:i+len(cut)]
+		}
+	}
+	msg = digitsRe.ReplaceAllString(msg, "N")
+	if len(msg) > 60 {
+		msg = msg[:60]
+	}
+	return strings.ReplaceAll(strings.TrimSpace(msg), " ", "_")
+}
+
+func runJob(j job) result {
+	res := result{Out: map[string]int64{}}
+	byKey := map[string]int{}
+	record := func(cell int, o outcome, input []byte) {
+		key := o.Kind + "|" + o.Site + "|" + msgClass(o.Msg)
+		name := cellName(j.Domain, cell)
+		if i, ok := byKey[key]; ok {
+			v := &res.Viol[i]
+			v.Count++
+			if len(v.Cells) < 200 {
+				dup := false
+				for _, c := range v.Cells {
+					dup = dup || c == name
+				}
+				if !dup {
+					v.Cells = append(v.Cells, name)
+				}
+			}
+			if len(input) < len(v.Input) {
+				v.Input, v.Quoted, v.Cell, v.Name, v.Msg = input, quoted(input), cell, name, o.Msg
+			}
+			return
+		}
+		byKey[key] = len(res.Viol)
+		v := violRec{Domain: j.Domain, Cell: cell, Name: name, Kind: o.Kind, Site: o.Site, Msg: o.Msg, Input: input, Quoted: quoted(input),
+			Meta: j.Meta, Bomb: j.Bomb, Count: 1, Cells: []string{name}}
+		if j.Bomb != "" {
+			v.Input = nil
+		}
+		res.Viol = append(res.Viol, v)
+	}
+	inputs := inputsOf(j)
+	busy.Store(true)
+	defer busy.Store(false)
+	for ii, input := range inputs {
+		if j.Cell >= 0 {
+			// single cell, exact allocation accounting
+			var o outcome
+			var alloc uint64
+			guarded(j.Domain, j.Cell, input, func() { o, alloc = runCellMeasured(j.Domain, j.Cell, input) })
+			res.Evals++
+			if (o.Kind == "ok" || o.Kind == "error") && alloc > allocBound(len(input)) {
+				o = outcome{Kind: "over-allocation", Msg: fmt.Sprintf("allocated %d bytes decoding %d bytes (bound %d)", alloc, len(input), allocBound(len(input)))}
+			}
+			res.Out[o.Kind]++
+			if o.Kind != "ok" && o.Kind != "error" {
+				record(j.Cell, o, input)
+			}
+			continue
+		}
+		res.Inputs++
+		if len(input) >= 2 {
+			res.NonTrivial++
+		}
+		hist := map[string]int{}
+		n := nCells(j.Domain)
+		ran := make([]bool, n)
+		before := allocApprox()
+		spun := [2]bool{}
+		for cell := 0; cell < n; cell++ {
+			if j.Domain == "io" {
+				v := cell % len(ioVariants)
+				if v == 0 {
+					spun = [2]bool{}
+				}
+				if v >= 2 && spun[v%2] {
+					res.Subsumed++ // the reader twin of this (destination, mode) spins: see the assumptions
+					continue
+				}
+			}
+			var o outcome
+			guarded(j.Domain, cell, input, func() { o = runCell(j.Domain, cell, input) })
+			res.Evals++
+			ran[cell] = o.Kind == "ok" || o.Kind == "error"
+			res.Out[o.Kind]++
+			hist[o.Kind]++
+			if o.Kind == "spin" {
+				spun[cell%len(ioVariants)%2] = true
+			}
+			if o.Kind != "ok" && o.Kind != "error" {
+				record(cell, o, input)
+			}
+		}
+		if delta := allocApprox() - before; delta > allocBound(len(input))/2 {
+			// the batch allocated enough that one evaluation might be over the bound: measure each exactly
+			for cell := 0; cell < n; cell++ {
+				if !ran[cell] {
+					continue
+				}
+				res.Remeasured++
+				var o outcome
+				var alloc uint64
+				guarded(j.Domain, cell, input, func() { o, alloc = runCellMeasured(j.Domain, cell, input) })
+				if (o.Kind == "ok" || o.Kind == "error") && alloc > allocBound(len(input)) {
+					record(cell, outcome{Kind: "over-allocation", Msg: fmt.Sprintf("allocated %d bytes decoding %d bytes (bound %d)", alloc, len(input), allocBound(len(input)))}, input)
+					res.Out["over-allocation"]++
+				}
+			}
+		}
+		if ii == len(inputs)/2 {
+			var ks []string
+			for k, c := range hist {
+				ks = append(ks, fmt.Sprintf("%s x%d", k, c))
+			}
+			sort.Strings(ks)
+			res.Sample = fmt.Sprintf("%s %s -> %s", j.Domain, quoted(input), strings.Join(ks, ", "))
+		}
+	}
+	return res
+}
+
+// ---- the enumerated spaces ----
+
+type spaces struct {
+	jobs      []job // round 1: bulk jobs and the first stage of the huge-count cells
+	corpusN   int
+	info      map[string]interface{}
+	risky     int64 // distinct huge-count / bomb inputs (they only ever run as single-cell jobs)
+	riskyNT   int64
+	explicitN map[string]int
+}
+
+func chunk(domain string, in [][]byte, size int) []job {
+	var out []job
+	for i := 0; i < len(in); i += size {
+		j := i + size
+		if j > len(in) {
+			j = len(in)
+		}
+		out = append(out, job{Domain: domain, Inputs: in[i:j], Cell: -1})
+	}
+	return out
+}
+
+func sigmaJobs(domain, prefix string, maxLen, size int) []job {
+	var out []job
+	n := corpus.SigmaCount(maxLen)
+	for lo := 0; lo < n; lo += size {
+		hi := lo + size
+		if hi > n {
+			hi = n
+		}
+		out = append(out, job{Domain: domain, Prefix: prefix, Lo: lo, Hi: hi, Cell: -1})
+	}
+	return out
+}
+
+var svcPrefixes = []string{"C", `Cs1"f"`, `Cs1"g"`, `Cs1"v"`, `Cs1"h"`, `Cs1"k"`, "H"}
+var cliPrefixes = []string{"R", "E", "H"}
+
+func validRequests() [][]byte {
+	type call struct {
+		name   string
+		args   []interface{}
+		simple bool
+		header string
+	}
+	in := gen.Inner{A: 1, B: "x"}
+	calls := []call{
+		{name: "f", args: []interface{}{1}}, {name: "f", args: []interface{}{2147483648}}, {name: "f", args: []interface{}{"12"}},
+		{name: "g", args: []interface{}{"ab", []int{1, 2}}}, {name: "g", args: []interface{}{"你", []int(nil)}},
+		{name: "v"}, {name: "v", args: []interface{}{1, "ab", nil, 1.5, true}}, {name: "v", args: []interface{}{"ab", "ab"}},
+		{name: "v", args: []interface{}{[]interface{}{1, []int{2}}, map[string]interface{}{"k": 1}}},
+		{name: "h", args: []interface{}{in}}, {name: "h", args: []interface{}{&in}}, {name: "h", args: []interface{}{map[string]interface{}{"a": 1}}},
+		{name: "k", args: []interface{}{map[string]interface{}{"a": 1}, [2]int{1, 2}, &in}}, {name: "k", args: []interface{}{nil, []int{1}, nil}},
+		{name: "~"}, {name: "nosuch", args: []interface{}{1}}, {name: "F", args: []interface{}{1}},
+		{name: "f", args: []interface{}{1}, simple: true}, {name: "v", args: []interface{}{"ab", "ab"}, simple: true}, {name: "h", args: []interface{}{in}, simple: true},
+		{name: "g", args: []interface{}{"ab", []int{1}}, header: "id"},
+	}
+	var out [][]byte
+	for _, c := range calls {
+		cc := core.NewClientContext()
+		if c.header != "" {
+			cc.RequestHeaders().Set(c.header, 7)
+		}
+		b, err := core.NewClientCodec(core.WithSimple(c.simple)).Encode(c.name, c.args, cc)
+		if err != nil {
+			panic(err)
+		}
+		out = append(out, append([]byte(nil), b...))
+	}
+	return out
+}
+
+func validResponses() [][]byte {
+	in := gen.Inner{A: 1, B: "x"}
+	type resp struct {
+		v      interface{}
+		simple bool
+	}
+	rs := []resp{
+		{v: 1}, {v: "ab"}, {v: []int{1, 2}}, {v: in}, {v: &in}, {v: map[string]interface{}{"k": 1}}, {v: nil}, {v: 1.5},
+		{v: errors.New("boom")}, {v: errors.New("timeout")}, {v: []interface{}{"ab", 1, []int{1, 2}}}, {v: []interface{}{"ab"}},
+		{v: []string{"ab", "ab"}}, {v: 1, simple: true}, {v: in, simple: true}, {v: []interface{}{"ab", 1, []int{1, 2}}, simple: true},
+	}
+	var out [][]byte
+	for _, r := range rs {
+		b, err := core.NewServiceCodec(core.WithSimple(r.simple)).Encode(r.v, core.NewServiceContext(services[0]))
+		if err != nil {
+			panic(err)
+		}
+		out = append(out, append([]byte(nil), b...))
+	}
+	return out
+}
+
+func coveredBySigma(b []byte, prefixes []string, maxLen int) bool {
+	for _, p := range prefixes {
+		if strings.HasPrefix(string(b), p) && len(b)-len(p) <= maxLen && corpus.OverSigma(b[len(p):]) {
+			return true
+		}
+	}
+	return false
+}
+
+func build(thorough bool) spaces {
+	sp := spaces{info: map[string]interface{}{}, explicitN: map[string]int{}}
+	maxLen, ins := 3, corpus.SigmaIns
+	if thorough {
+		maxLen, ins = 4, corpus.Sigma
+	}
+	cs := corpus.Build(gen.NewAlphabet(), 40, 1)
+	sp.corpusN = len(cs)
+	numSub := corpus.FirstPer(cs, corpus.TagSet)
+	if thorough {
+		numSub = corpus.FirstPer(cs, corpus.TagSeq)
+	}
+	inSub := map[string]bool{}
+	for _, s := range numSub {
+		inSub[string(s.Bytes)] = true
+	}
+	type riskyIn struct {
+		b    []byte
+		meta string
+	}
+	explicit := func(domain string, valid [][]byte, sub func([]byte) bool, prefixes []string) ([][]byte, []riskyIn) {
+		seen := map[string]bool{}
+		var out [][]byte
+		var risky []riskyIn
+		var nMut, nNum, nHugeSkipped int
+		add := func(b []byte) bool {
+			if seen[string(b)] || coveredBySigma(b, prefixes, maxLen) {
+				return false
+			}
+			seen[string(b)] = true
+			out = append(out, b)
+			return true
+		}
+		for _, s := range valid {
+			add(s)
+			for _, m := range corpus.Mutations(s, ins) {
+				if add(m) {
+					nMut++
+				}
+			}
+			for _, m := range corpus.NumMutations(s) {
+				if corpus.Huge(m.Value) {
+					if !sub(s) {
+						nHugeSkipped++
+						continue
+					}
+					if !seen[string(m.Bytes)] {
+						seen[string(m.Bytes)] = true
+						risky = append(risky, riskyIn{m.Bytes, fmt.Sprintf("count-of=%c value=%s", m.Tag, m.Value)})
+					}
+					continue
+				}
+				if add(m.Bytes) {
+					nNum++
+				}
+			}
+		}
+		sp.info[domain+"_valid_streams"] = len(valid)
+		sp.info[domain+"_single_edit_mutants"] = nMut
+		sp.info[domain+"_numeric_mutants_small"] = nNum
+		sp.info[domain+"_numeric_mutants_huge"] = len(risky)
+		sp.explicitN[domain] = len(out)
+		return out, risky
+	}
+	addRisky := func(domain string, r riskyIn, cells []int) {
+		sp.risky++
+		if len(r.b) >= 2 {
+			sp.riskyNT++
+		}
+		for _, c := range cells {
+			sp.jobs = append(sp.jobs, job{Domain: domain, Inputs: [][]byte{r.b}, Cell: c, Meta: r.meta})
+		}
+	}
+
+	// io domain
+	var valid [][]byte
+	for _, s := range cs {
+		valid = append(valid, s.Bytes)
+	}
+	ioIn, ioRisky := explicit("io", valid, func(b []byte) bool { return inSub[string(b)] }, []string{""})
+	sp.jobs = append(sp.jobs, sigmaJobs("io", "", maxLen, 400)...)
+	sp.jobs = append(sp.jobs, chunk("io", ioIn, 300)...)
+	var readerCells []int // stage one of a huge-count input: the reader variants; the coder variants follow per cell
+	for d := range dests {
+		readerCells = append(readerCells, d*len(ioVariants)+0, d*len(ioVariants)+1)
+	}
+	for _, r := range ioRisky {
+		addRisky("io", r, readerCells)
+	}
+	sp.info["io_numeric_huge_subcorpus_streams"] = len(numSub)
+
+	// rpc domains: huge-count mutants of every third valid message in the quick tier, of all in thorough
+	nth := func(all [][]byte) func([]byte) bool {
+		keep := map[string]bool{}
+		for i, b := range all {
+			if thorough || i%3 == 0 {
+				keep[string(b)] = true
+			}
+		}
+		return func(b []byte) bool { return keep[string(b)] }
+	}
+	all := func(n int) []int {
+		out := make([]int, n)
+		for i := range out {
+			out[i] = i
+		}
+		return out
+	}
+	reqs := validRequests()
+	svcIn, svcRisky := explicit("svc", reqs, nth(reqs), svcPrefixes)
+	for _, p := range svcPrefixes {
+		sp.jobs = append(sp.jobs, sigmaJobs("svc", p, maxLen, 4000)...)
+	}
+	sp.jobs = append(sp.jobs, chunk("svc", svcIn, 2000)...)
+	for _, r := range svcRisky {
+		addRisky("svc", r, all(len(services)))
+	}
+	resps := validResponses()
+	cliIn, cliRisky := explicit("cli", resps, nth(resps), cliPrefixes)
+	for _, p := range cliPrefixes {
+		sp.jobs = append(sp.jobs, sigmaJobs("cli", p, maxLen, 4000)...)
+	}
+	sp.jobs = append(sp.jobs, chunk("cli", cliIn, 2000)...)
+	for _, r := range cliRisky {
+		addRisky("cli", r, all(len(cliReturn)))
+	}
+
+	// nesting bombs: one worker per cell
+	depths := []int{10, 100, 1000, 10000, 100000}
+	nb := 0
+	for _, k := range depths {
+		for _, kind := range []string{"list-open", "list-closed", "map-open", "map-closed"} {
+			nb++
+			sp.risky++
+			sp.riskyNT++
+			for c := 0; c < nCells("io"); c++ {
+				sp.jobs = append(sp.jobs, job{Domain: "io", Bomb: fmt.Sprintf("%s:%d", kind, k), Cell: c})
+			}
+		}
+		for _, kind := range []string{"svc-list-open", "svc-list-closed"} {
+			nb++
+			sp.risky++
+			sp.riskyNT++
+			for c := 0; c < nCells("svc"); c++ {
+				sp.jobs = append(sp.jobs, job{Domain: "svc", Bomb: fmt.Sprintf("%s:%d", kind, k), Cell: c})
+			}
+		}
+		for _, kind := range []string{"cli-list-open", "cli-list-closed"} {
+			nb++
+			sp.risky++
+			sp.riskyNT++
+			for c := 0; c < nCells("cli"); c++ {
+				sp.jobs = append(sp.jobs, job{Domain: "cli", Bomb: fmt.Sprintf("%s:%d", kind, k), Cell: c})
+			}
+		}
+	}
+	sp.info["sigma_symbols"] = len(corpus.Sigma)
+	sp.info["sigma_max_length"] = maxLen
+	sp.info["sigma_strings"] = corpus.SigmaCount(maxLen)
+	sp.info["sigma_prefixes_svc"] = svcPrefixes
+	sp.info["sigma_prefixes_cli"] = cliPrefixes
+	sp.info["insertion_symbols"] = len(ins)
+	sp.info["nesting_bombs"] = nb
+	sp.info["nesting_depths"] = depths
+	sp.info["io_destinations"] = len(dests)
+	sp.info["io_entry_variants"] = ioVariants
+	sp.info["svc_cells"] = len(services)
+	sp.info["cli_cells"] = len(cliReturn)
+	return sp
+}
+
+// ---- coordinator ----
+
+type agg struct {
+	sig     string
+	count   int64
+	cells   map[string]bool
+	domains map[string]bool
+	rep     violRec
+}
+
+func better(a, b violRec) bool { // a is a better representative than b
+	la, lb := len(a.Input), len(b.Input)
+	if a.Bomb != "" || b.Bomb != "" {
+		return a.Bomb != "" && (b.Bomb == "" || len(a.Bomb) < len(b.Bomb) || len(a.Bomb) == len(b.Bomb) && a.Bomb < b.Bomb)
+	}
+	if la != lb {
+		return la < lb
+	}
+	if c := strings.Compare(string(a.Input), string(b.Input)); c != 0 {
+		return c < 0
+	}
+	if a.Domain != b.Domain {
+		return a.Domain < b.Domain
+	}
+	return a.Cell < b.Cell
+}
+
+func metaCount(meta string) string {
+	if i := strings.Index(meta, "count-of="); i >= 0 {
+		return "|" + meta[i:i+len("count-of=")+1]
+	}
+	return ""
+}
+
+func signature(v violRec) string {
+	switch v.Kind {
+	case "panic":
+		return fmt.Sprintf("C04|panic|at=%s|%s", v.Site, msgClass(v.Msg))
+	case "spin":
+		return "C04|unbounded-loop|at=" + v.Site
+	case "out-of-memory":
+		return "C04|out-of-memory|at=" + v.Site
+	case "over-allocation":
+		return "C04|over-allocation|" + v.Domain + ":" + shortCell(v)
+	case "stack-overflow", "cpu-budget", "hang-watchdog":
+		what := shortCell(v) + metaCount(v.Meta)
+		if v.Bomb != "" {
+			what += "|bomb=" + v.Bomb[:strings.LastIndex(v.Bomb, ":")]
+		}
+		return fmt.Sprintf("C04|%s|%s:%s", v.Kind, v.Domain, what)
+	}
+	return fmt.Sprintf("C04|%s|at=%s|%s", v.Kind, v.Site, msgClass(v.Msg))
+}
+
+func shortCell(v violRec) string {
+	if v.Domain == "io" {
+		return dests[v.Cell/len(ioVariants)].String()
+	}
+	if v.Domain == "svc" {
+		return []string{"functions", "missing-method"}[v.Cell]
+	}
+	return strings.TrimPrefix(v.Name, "client returning ")
+}
+
+// classify turns the death of a single-cell job into a violation record.
+func classify(j job, f *shard.Failure) violRec {
+	in := inputsOf(j)[0]
+	v := violRec{Domain: j.Domain, Cell: j.Cell, Name: cellName(j.Domain, j.Cell), Input: in, Quoted: quoted(in), Meta: j.Meta, Bomb: j.Bomb, Count: 1}
+	if j.Bomb != "" {
+		v.Input = nil
+	}
+	v.Cells = []string{v.Name}
+	se := f.Stderr
+	firstLine := func(marker string) string {
+		if i := strings.Index(se, marker); i >= 0 {
+			l := se[i:]
+			if k := strings.Index(l, "\n"); k >= 0 {
+				l = l[:k]
+			}
+			return l
+		}
+		return ""
+	}
+	switch {
+	case strings.Contains(se, "C04-CPU-BUDGET"):
+		v.Kind, v.Msg = "cpu-budget", "the evaluation did not return within its CPU budget: "+firstLine("C04-CPU-BUDGET")
+	case f.Kind == "timeout":
+		v.Kind, v.Msg = "hang-watchdog", f.Exit
+	case strings.Contains(se, "out of memory") || strings.Contains(se, "cannot allocate memory"):
+		v.Kind, v.Msg, v.Site = "out-of-memory", "the process died under ulimit -v 2 GiB: "+firstLine("runtime: out of memory")+firstLine("runtime: cannot allocate"), iocase.PanicSite(se)
+	case strings.Contains(se, "stack overflow") || strings.Contains(se, "stack exceeds"):
+		v.Kind, v.Msg = "stack-overflow", "the process died: "+firstLine("runtime: goroutine stack exceeds")
+	default:
+		msg := firstLine("fatal error:")
+		if msg == "" {
+			msg = firstLine("panic:")
+		}
+		if msg == "" {
+			msg = firstLine("SIG")
+		}
+		v.Kind, v.Msg, v.Site = "process-death", f.Exit+": "+msg, iocase.PanicSite(se)
+	}
+	return v
 }
 
 func main() {
+	thorough := report.Tier() == "thorough"
 	iocase.Init()
-	a := gen.NewAlphabet()
-	c := corpus.Build(a, 40, 1)
-	sk := map[string]bool{}
-	tg := map[string]bool{}
-	nh, nhq := 0, 0
-	for _, s := range c {
-		k := skel(s.Bytes)
-		if !sk[k] {
-			sk[k] = true
-			for _, m := range corpus.NumMutations(s.Bytes) {
-				if corpus.Huge(m.Value) {
-					nh++
-				}
+	setupRPC()
+	if shard.IsWorker() {
+		go cpuWatchdog()
+		shard.Serve(func(raw json.RawMessage) interface{} {
+			var j job
+			if err := json.Unmarshal(raw, &j); err != nil {
+				return map[string]string{"error": err.Error()}
 			}
+			return runJob(j)
+		})
+	}
+	if len(os.Args) > 2 && os.Args[1] == "--replay" {
+		replay(os.Args[2])
+		return
+	}
+	run := report.New(ID, "exploration")
+	sp := build(thorough)
+
+	aggs := map[string]*agg{}
+	addViol := func(v violRec) {
+		sig := signature(v)
+		a := aggs[sig]
+		if a == nil {
+			a = &agg{sig: sig, cells: map[string]bool{}, domains: map[string]bool{}, rep: v}
+			aggs[sig] = a
+		} else if better(v, a.rep) {
+			a.rep = v
 		}
-		k2 := tags(s.Bytes)
-		if !tg[k2] {
-			tg[k2] = true
-			fmt.Printf("%q %q\n", k2, s.Bytes)
-			for _, m := range corpus.NumMutations(s.Bytes) {
-				if corpus.Huge(m.Value) {
-					nhq++
-				}
+		a.count += v.Count
+		a.domains[v.Domain] = true
+		for _, c := range v.Cells {
+			if len(a.cells) < 400 {
+				a.cells[c] = true
 			}
 		}
 	}
-	fmt.Println(len(c), "skeletons", len(sk), "huge", nh, "tagsigs", len(tg), "huge", nhq)
+	var inputs, nontrivial, evals, subsumed, remeasured, deaths, splits int64
+	inputs, nontrivial = sp.risky, sp.riskyNT
+	out := map[string]int64{}
+	samples := report.NewSamples(16)
+	pending := sp.jobs
+	rounds := 0
+	for len(pending) > 0 {
+		rounds++
+		cur := pending
+		pending = nil
+		jobs := make([]interface{}, len(cur))
+		for i := range cur {
+			jobs[i] = cur[i]
+		}
+		shard.Run(jobs, shard.Options{JobTimeout: 120 * time.Second, MemLimitKB: memLimitKB}, func(i int, raw json.RawMessage, fail *shard.Failure) {
+			j := cur[i]
+			stageOne := j.Domain == "io" && j.Cell >= 0 && j.Bomb == "" && j.Cell%len(ioVariants) < 2
+			spun := false
+			if fail != nil {
+				switch {
+				case j.Cell >= 0:
+					deaths++
+					evals++
+					v := classify(j, fail)
+					out[v.Kind]++
+					addViol(v)
+				case len(inputsOf(j)) > 1:
+					splits++
+					for _, in := range inputsOf(j) {
+						pending = append(pending, job{Domain: j.Domain, Inputs: [][]byte{in}, Cell: -1})
+					}
+				default:
+					splits++
+					inputs++ // this input is now counted here: its all-cells job never reported
+					if len(inputsOf(j)[0]) >= 2 {
+						nontrivial++
+					}
+					for c := 0; c < nCells(j.Domain); c++ {
+						pending = append(pending, job{Domain: j.Domain, Inputs: j.Inputs, Cell: c, Meta: "split"})
+					}
+				}
+			} else {
+				var r result
+				if err := json.Unmarshal(raw, &r); err != nil || r.Out == nil {
+					run.Infra("bad worker result: " + string(raw))
+					return
+				}
+				inputs += r.Inputs
+				nontrivial += r.NonTrivial
+				evals += r.Evals
+				subsumed += r.Subsumed
+				remeasured += r.Remeasured
+				for k, c := range r.Out {
+					out[k] += c
+				}
+				for _, v := range r.Viol {
+					addViol(v)
+					spun = spun || v.Kind == "spin"
+				}
+				if r.Sample != "" && i%(len(cur)/16+1) == 0 {
+					samples.Add(r.Sample)
+				}
+			}
+			if stageOne && j.Meta != "split" {
+				// second stage of a huge-count cell: the in-memory twin, unless the reader twin spins
+				if spun {
+					subsumed++
+				} else {
+					pending = append(pending, job{Domain: "io", Inputs: j.Inputs, Cell: j.Cell + 2, Meta: j.Meta})
+				}
+			}
+		})
+	}
+
+	// every signature's representative once more in a fresh worker; for a spinning reader twin also the
+	// in-memory twin that was not run, under the CPU budget
+	var sigs []string
+	for s := range aggs {
+		sigs = append(sigs, s)
+	}
+	sort.Strings(sigs)
+	var confirm []job
+	var confirmSig []string
+	for _, s := range sigs {
+		a := aggs[s]
+		in := [][]byte{a.rep.Input}
+		if a.rep.Bomb != "" {
+			in = nil
+		}
+		confirm = append(confirm, job{Domain: a.rep.Domain, Inputs: in, Bomb: a.rep.Bomb, Cell: a.rep.Cell, Meta: a.rep.Meta})
+		confirmSig = append(confirmSig, s)
+		if a.rep.Kind == "spin" {
+			confirm = append(confirm, job{Domain: a.rep.Domain, Inputs: in, Cell: a.rep.Cell + 2, Meta: "in-memory-twin"})
+			confirmSig = append(confirmSig, s)
+		}
+	}
+	isolated := map[string]string{}
+	twin := map[string]string{}
+	if len(confirm) > 0 {
+		jobs := make([]interface{}, len(confirm))
+		for i := range confirm {
+			jobs[i] = confirm[i]
+		}
+		shard.Run(jobs, shard.Options{JobTimeout: 120 * time.Second, MemLimitKB: memLimitKB}, func(i int, raw json.RawMessage, fail *shard.Failure) {
+			verdict := "no violation"
+			if fail != nil {
+				v := classify(confirm[i], fail)
+				verdict = v.Kind + ": " + v.Msg
+			} else {
+				var r result
+				json.Unmarshal(raw, &r)
+				if len(r.Viol) > 0 {
+					verdict = r.Viol[0].Kind + ": " + r.Viol[0].Msg
+				}
+			}
+			if confirm[i].Meta == "in-memory-twin" {
+				twin[confirmSig[i]] = verdict
+				if verdict == "no violation" {
+					run.Infra("the in-memory twin of a spinning reader-fed decode returned normally; skipping in-memory cells is not justified for " + confirmSig[i])
+				}
+			} else {
+				isolated[confirmSig[i]] = verdict
+			}
+		})
+	}
+	for _, s := range sigs {
+		a := aggs[s]
+		cells := corpus.SortedKeys(a.cells)
+		if len(cells) > 40 {
+			cells = append(cells[:40], fmt.Sprintf("... (%d cells)", len(a.cells)))
+		}
+		what := fmt.Sprintf("%s [input %s%s; cell: %s; %d evaluations in %d cells of domains %v fail this way; cells: %s; alone in a fresh process: %s",
+			a.rep.Msg, a.rep.Quoted, map[bool]string{true: " " + a.rep.Bomb, false: ""}[a.rep.Bomb != ""], a.rep.Name, a.count, len(a.cells),
+			corpus.SortedKeys(a.domains), strings.Join(cells, "; "), isolated[s])
+		if t, ok := twin[s]; ok {
+			what += "; in-memory twin of the same cell: " + t
+		}
+		what += "]"
+		run.Violate(s, what, a.rep)
+		for k := int64(1); k < a.count && k < 1000000; k++ {
+			run.Violate(s, "", nil)
+		}
+	}
+	run.Set("evaluations", evals)
+	run.Set("distinct_nontrivial", nontrivial)
+	run.Set("distinct_inputs", inputs)
+	run.Set("rule", "one evaluation = one (byte string, cell) decode, a cell being destination type x entry variant (io), service (svc) or return-type list (cli); byte strings are deduplicated across families before they are distributed, so every counted input is distinct within its domain; distinct_nontrivial counts the distinct inputs of at least 2 bytes")
+	run.Set("samples", samples.List())
+	run.Set("exhaustive", true)
+	run.Set("outcomes", out)
+	run.Set("inmemory_cells_subsumed_by_spinning_reader_twin", subsumed)
+	run.Set("cells_remeasured_exactly_for_allocation", remeasured)
+	run.Set("worker_deaths_convicting_one_cell", deaths)
+	run.Set("jobs_split_after_worker_death", splits)
+	run.Set("rounds", rounds)
+	run.Set("signatures", len(sigs))
+	run.Set("in_memory_twin_confirmations", twin)
+	sp.info["io_explicit_inputs"] = sp.explicitN["io"]
+	sp.info["svc_explicit_inputs"] = sp.explicitN["svc"]
+	sp.info["cli_explicit_inputs"] = sp.explicitN["cli"]
+	sp.info["corpus_streams"] = sp.corpusN
+	run.Set("space", sp.info)
+	run.Assumption("scope hypothesis: a decoder defect reachable from untrusted bytes shows on a string of at most the stated length over the tag alphabet, on a single-byte edit or a count/length/index replacement of a short valid stream, or on a nesting bomb")
+	run.Assumption("a reader-fed decode that asks for more data more than 100000 + 256 x len times after io.EOF is convicted as an unbounded loop; the in-memory variants of that (input, destination, mode) are then not run (they differ only in loadMore and would burn the CPU budget); one in-memory twin per signature is run under the CPU budget to confirm, and a twin that returns normally is an infrastructure error")
+	run.Assumption("workers run under ulimit -v 2 GiB: an allocation the address space cannot satisfy kills the worker and convicts the one cell it was running; smaller over-allocations are measured (TotalAlloc delta against 1 MiB + 256 x len)")
+	run.Assumption("time oracle: 3 s of process CPU time per evaluation (inputs are at most a few hundred bytes, bombs get 10 us per byte more) and a 120 s wall-clock watchdog per job; nothing below that is judged by the clock")
+	run.Finish()
+}
+
+func replay(path string) {
+	_, raw := report.LoadReplay(path)
+	var v violRec
+	if err := json.Unmarshal(raw, &v); err != nil {
+		fmt.Fprintln(os.Stderr, err)
+		os.Exit(2)
+	}
+	j := job{Domain: v.Domain, Cell: v.Cell, Bomb: v.Bomb, Meta: v.Meta}
+	if v.Bomb == "" {
+		j.Inputs = [][]byte{v.Input}
+	}
+	fmt.Printf("domain %s cell %d (%s) input %s %s\n", v.Domain, v.Cell, cellName(v.Domain, v.Cell), v.Quoted, v.Bomb)
+	verdict := ""
+	shard.Run([]interface{}{j}, shard.Options{Workers: 1, JobTimeout: 120 * time.Second, MemLimitKB: memLimitKB}, func(i int, raw json.RawMessage, fail *shard.Failure) {
+		if fail != nil {
+			c := classify(j, fail)
+			verdict = c.Kind + ": " + c.Msg + " at " + c.Site
+			return
+		}
+		var r result
+		json.Unmarshal(raw, &r)
+		if len(r.Viol) > 0 {
+			verdict = r.Viol[0].Kind + ": " + r.Viol[0].Msg + " at " + r.Viol[0].Site
+		}
+	})
+	if verdict != "" {
+		fmt.Printf("REPRODUCED %s\n", verdict)
+		fmt.Printf("VIOLATION property=%s replay=%s\n", ID, path)
+		os.Exit(1)
+	}
+	fmt.Println("not reproduced")
+	os.Exit(0)
 }
